@@ -271,9 +271,6 @@ def run(F, tier, res):
     for q in sorted(F.fn_bodies):
         if q.startswith('<') and 'Drop' not in q:
             pass
-        waits = [i for i, c in F.calls(q) if callee_of(c).endswith('process::Child::wait')]
-        if not waits:
-            continue
         defs = F.local_defs(q)
         for bi, blk in enumerate(F.blocks(q)):
             if blk['cleanup']:
@@ -295,7 +292,7 @@ def run(F, tier, res):
                                 'the child\'s stdout pipe is borrowed from the Child (%s) instead of being moved out of it: after the reader has gone away the read end stays open '
                                 'inside the Child, the child blocks on a full pipe and the wait() on the broken-pipe path never returns (delta hangs instead of exiting 0)'
                                 % (users or ['&mut'])[0].split('::')[-1], where=F.bodies[q]['mir']['span']['at'])
-    res.rule('C18.WAIT-CLOSED', nwc, 1, 'references to Child.stdout in functions that wait for the child: each is the receiver of Option::take (the handle leaves the Child)', discharged=okwc)
+    res.rule('C18.WAIT-CLOSED', nwc, 0, 'references to the stdout field of a std::process::Child: each is the receiver of Option::take (the handle leaves the Child before delta waits for it)', discharged=okwc)
     # ---------- PAGER
     tp = [q for q in F.fn_bodies if q.endswith('OutputType::try_pager')]
     mk = [q for q in F.fn_bodies if q.endswith('_make_process_from_less_path')]
